@@ -14,7 +14,7 @@
 From Coq Require Import ZArith List Bool.
 From SP Require Import Base.Sat Base.Bits Design.Flat Design.Sem.
 From SP Require Import Encode.Compile Encode.CodeSem Encode.Generic Encode.F1Kinds Encode.F1Sem
-     Encode.CompileCorollaries.
+     Encode.CompileCorollaries Encode.PropertyLemmas.
 
 Theorem C03_unique_extension :
   forall (fb : flat) (b : backend) (ok : bool) (n' : Z) (final : cnf) (t1 t2 : asg),
@@ -22,7 +22,7 @@ Theorem C03_unique_extension :
     compile fb = COk b -> full_cnf b = (ok, n', final) ->
     agree_upto (GZ fb) t1 t2 -> sat t1 final = true -> sat t2 final = true ->
     agree_upto n' t1 t2.
-Proof. intros fb b ok n' final t1 t2 HF1 HT Hc. exact (unique_extension fb HF1 HT b Hc ok n' final t1 t2). Qed.
+Proof. exact c03_unique_extension. Qed.
 Print Assumptions C03_unique_extension.
 
 Theorem C03_vars_contiguous :
@@ -31,7 +31,7 @@ Theorem C03_vars_contiguous :
     compile fb = COk b -> full_cnf b = (ok, n', final) ->
     ok = true /\ vars_upto n' final /\
     forall t v, (GZ fb < v <= n')%Z -> sat t final = true -> sat (upd t v (negb (t v))) final = false.
-Proof. intros fb b ok n' final HF1 HT Hc. exact (vars_contiguous fb HF1 HT b Hc ok n' final). Qed.
+Proof. exact c03_vars_contiguous. Qed.
 Print Assumptions C03_vars_contiguous.
 
 Theorem C03_cardinality_unique :
@@ -43,20 +43,13 @@ Theorem C03_cardinality_unique :
     vars_upto n' final /\
     forall t1 t2, agree_upto (b_fresh b - 1) t1 t2 ->
       sat t1 final = true -> sat t2 final = true -> agree_upto n' t1 t2.
-Proof.
-  intros b n' final Hf Hok Hv E.
-  destruct (full_cnf_denotes b Hf Hok Hv) as (n1 & f1 & E1 & _ & V & _ & U).
-  rewrite E in E1. inversion E1. subst. split; assumption.
-Qed.
+Proof. exact c03_cardinality_unique. Qed.
 Print Assumptions C03_cardinality_unique.
 
 (** [GZ fb] is the number of trial variables: the support handed to the samplers *)
 Example C03_support : forall fb, in_f1 fb = true -> GZ fb = zn (Design.Layout.variables_per_sample fb).
-Proof. intros fb HF1. unfold GZ, GN. now rewrite (Encode.LayoutF1.f1_vps fb HF1). Qed.
+Proof. exact c03_support. Qed.
 
 Example C03_example :
   in_f1 ex_stroop = true /\ (0 < T ex_stroop)%nat /\ (exists b, compile ex_stroop = COk b).
-Proof.
-  split; [exact (proj1 ex_stroop_in_f1)|]. split; [exact (proj2 ex_stroop_in_f1)|].
-  destruct ex_stroop_compiles as (b & E & _). now exists b.
-Qed.
+Proof. destruct ex_stroop_facts as (A & B & C & _). exact (conj A (conj B C)). Qed.
